@@ -225,6 +225,21 @@ func (p *Parser) Parse() (*SelectStatement, error) {
 		}
 	}
 
+	// HAVING written after WITH (...) (GROUP BY ... WITH (...) HAVING ...): parseHaving ran before
+	// parseWith and saw WITH, so the clause used to be dropped without an error.
+	if stmt.Having == "" {
+		snap := p.lexer.save()
+		if tok := p.lexer.NextToken(); tok.Type == TokenHAVING {
+			if err := p.parseHaving(stmt); err != nil {
+				if !p.errorRecovery.RecoverFromError(ErrorTypeSyntax) {
+					return nil, p.createDetailedError(err)
+				}
+			}
+		} else {
+			p.lexer.restore(snap)
+		}
+	}
+
 	// 解析 ORDER BY 子句
 	if err := p.parseOrderBy(stmt); err != nil {
 		if !p.errorRecovery.RecoverFromError(ErrorTypeSyntax) {
